@@ -670,6 +670,73 @@ pub fn m5(level: u8) -> Vec<Model> {
     out
 }
 
+/// M6: literals defined by predicates (`Solver::new_literal_for_predicate`), used both as
+/// literals (clauses, reification) and as 0-1 integer variables (linear, not-equal, element,
+/// times, all-different).
+pub fn m6(level: u8) -> Vec<Model> {
+    let (x, y, l, m) = (0usize, 1usize, 2usize, 3usize);
+    let ps = [
+        Pred::new(x, PredKind::Ge, 2),
+        Pred::new(x, PredKind::Eq, 1),
+        Pred::new(x, PredKind::Ne, 2),
+        Pred::new(x, PredKind::Le, 0),
+    ];
+    let qs = [
+        Pred::new(y, PredKind::Eq, 1),
+        Pred::new(y, PredKind::Ge, 1),
+        Pred::new(x, PredKind::Eq, 3),
+        Pred::new(y, PredKind::Ne, 0),
+    ];
+    let v = View::id;
+    let cons: Vec<Con> = vec![
+        Con::BinNe(v(l), v(m)),
+        Con::BinEq(v(l), v(m)),
+        Con::BinLt(v(l), v(m)),
+        Con::LinNe(vec![v(l), v(m), v(x)], 2),
+        Con::LinNe(vec![v(l), View::new(m, -1, 0)], 0),
+        Con::LinLe(vec![v(l), v(m)], 1),
+        Con::LinLe(vec![View::new(l, -1, 0), View::new(m, -1, 0)], -1),
+        Con::LinEq(vec![v(l), v(m), v(y)], 2),
+        Con::LinEq(vec![View::new(l, 2, 0), v(x), View::new(y, -1, 0)], 2),
+        Con::AllDiff(vec![v(l), View::new(m, 1, 1), v(x)]),
+        Con::Max(vec![v(l), v(m)], v(y)),
+        Con::Times(v(l), v(x), v(y)),
+        Con::Element {
+            index: v(l),
+            array: vec![v(x), v(y)],
+            rhs: View::new(m, 2, 0),
+        },
+        Con::LitClause(vec![Lit::p(l), Lit::p(m)]),
+        Con::LitClause(vec![Lit::n(l), Lit::p(m)]),
+        Con::LitConj(vec![Lit::n(l), Lit::n(m)]),
+        Con::Implied(Lit::p(l), Box::new(Con::BinNe(v(x), v(y)))),
+        Con::Reified(Lit::p(m), Box::new(Con::LinLe(vec![v(x), v(y)], 2))),
+        Con::Reified(Lit::n(l), Box::new(Con::BinEq(v(x), View::new(y, 1, 1)))),
+        Con::BoolLinLe(vec![2, 1], vec![Lit::p(l), Lit::n(m)], 1),
+        Con::PredClause(vec![Pred::new(l, PredKind::Ne, 1), Pred::new(m, PredKind::Eq, 1), Pred::new(y, PredKind::Le, 0)]),
+    ];
+    let mut out = vec![];
+    for (pi, p) in ps.iter().enumerate() {
+        for (qi, q) in qs.iter().enumerate() {
+            let vars = vec![VarDecl::interval(0, 3), VarDecl::interval(0, 2), VarDecl::lit_for(*p), VarDecl::lit_for(*q)];
+            for c in &cons {
+                out.push(Model::new(vars.clone(), vec![c.clone()]));
+            }
+            let stride = if level >= 1 { 1 } else { 4 };
+            let mut k = pi + qi;
+            for i in 0..cons.len() {
+                for j in i + 1..cons.len() {
+                    k += 1;
+                    if k % stride == 0 {
+                        out.push(Model::new(vars.clone(), vec![cons[i].clone(), cons[j].clone()]));
+                    }
+                }
+            }
+        }
+    }
+    out
+}
+
 /// Is the model non-trivial: neither every assignment is a solution nor none.
 pub fn nontrivial(model: &Model, num_solutions: usize) -> bool {
     num_solutions > 0 && (num_solutions as u64) < model.space_size()
